@@ -154,6 +154,20 @@ CHECKS["C18"] = (
     "5/C18",
 )
 
+CHECKS["C06"] = (
+    "model_checking",
+    "grammar-bounded exhaustive enumeration of antecedent expression trees executed on the real parser/evaluator against the source tree's reference value",
+    "All expression trees up to 3 leaves over 5 leaf propositions and 4 leaves over 3 (thorough: 4 over 5, 5 over 3) "
+    "with every and/or labelling, plus all hedge-chain / any / output-variable / disabled-variable leaf forms, are "
+    "printed by a trusted printer in 5 renderings (minimal, full, doubled parentheses, no spaces, parenthesised "
+    "propositions), loaded with Rule.create and evaluated under 9 (thorough: all 63) conjunction/disjunction pairs, "
+    "rule weights and input rows incl. NaN and a batch; the implementation's postfix must equal the tree's postfix "
+    "and its value the reference value of the source tree x weight.",
+    "Names are not keywords/hedges/function names; the reference recogniser must parse each rendering back to the "
+    "tree (keeps printer and recogniser honest for C16).",
+    "5/C06",
+)
+
 REASON_NOT_BUILT = "check not built yet in this phase (planned in DESIGN.md section 5); no claim is made"
 
 
